@@ -179,3 +179,59 @@ def solver_artifact(case, tier, r, objective_tol=1e-6):
         except Exception:
             return False
     return False
+
+
+class ConstraintSpec:
+    """Constraints of a case in comparable form: elements are nodes (node mode) or edge tuples; coverage by count or length."""
+
+    def __init__(self, case, G):
+        cls = case["cls"]
+        kw = case.get("kw", {})
+        self.cyc = cls in CYC_CLASSES
+        self.node_mode = is_node_mode(case)
+        cons = kw.get(CONSTRAINT_KEY[cls], []) or []
+        self.constraints = [[(x if self.node_mode else tuple(x)) for x in c] for c in cons]
+        if self.cyc:
+            self.constraints = [list(dict.fromkeys(c)) for c in self.constraints]
+        self.by_length = (not self.cyc) and kw.get("subpath_constraints_coverage_length") is not None
+        if self.by_length:
+            self.coverage = kw["subpath_constraints_coverage_length"]
+            la = kw.get("length_attr")
+            if self.node_mode:
+                self.lengths = {v: d.get(la, 1) for v, d in G.nodes(data=True)}
+            else:
+                self.lengths = {(u, v): d.get(la, 1) for u, v, d in G.edges(data=True)}
+        else:
+            self.coverage = kw.get("subset_constraints_coverage" if self.cyc else "subpath_constraints_coverage", 1.0)
+            self.lengths = None
+
+    def __bool__(self):
+        return bool(self.constraints)
+
+    def length(self, x):
+        return self.lengths.get(x, 1) if self.lengths is not None else 1
+
+    def elements_of(self, route):
+        return set(route) if self.node_mode else set(zip(route[:-1], route[1:]))
+
+    def met_by(self, c, element_set):
+        need = sum(self.length(x) for x in c) * self.coverage
+        return sum(self.length(x) for x in c if x in element_set) >= need - 1e-9
+
+    def unmet(self, routes):
+        """First constraint contained in no single route (to the requested coverage), or None."""
+        sets = [self.elements_of(r) for r in routes]
+        for c in self.constraints:
+            if not any(self.met_by(c, s) for s in sets):
+                return c
+        return None
+
+    def predicate(self, element_sets):
+        """predicate(tuple of indices into element_sets) for the exhaustive route-set search."""
+        if not self.constraints:
+            return None
+
+        def pred(sub):
+            return all(any(self.met_by(c, element_sets[i]) for i in sub) for c in self.constraints)
+
+        return pred
